@@ -372,6 +372,8 @@ impl<T> Pool<T> {
         self.inner.semaphore.add_permits(1);
         #[cfg(deadpool_verif)]
         verif::point("unmanaged._add.post_add_permits");
+        // The pool might have been closed after the slot was acquired.
+        self.inner.clean_up();
     }
 
     /// Removes an [`Object`] from this [`Pool`].
